@@ -29,14 +29,16 @@ def gval(model, asg):
     return tot
 
 
-def make_sub(ctx, src, which, fixed_idx, method=False, dense=False):
+def make_sub(ctx, src, which, fixed_idx, method=False, dense=False, nlab=3):
     from qubovert.utils import subvalue, subgraph
     TY = O.types()
     T = TY[src]
     spin = O.is_spin_name(src)
-    labs = list(range(3)) if src in O.MATRIX_TYPES else O.LABEL_POOL[:3]
+    labs = list(range(nlab)) if src in O.MATRIX_TYPES else O.LABEL_POOL[:nlab]
     deg2 = src in O.DEG2_TYPES
-    if dense:
+    if nlab == 4:
+        U = O.universe(labs, 1) + [(labs[0], labs[1]), (labs[1], labs[2]), (labs[2], labs[3])] + ([] if deg2 else [(labs[0], labs[2], labs[3]), tuple(labs)])
+    elif dense:
         U = O.universe(labs, 2 if deg2 else 3)
     else:
         U = [(), (labs[0],), (labs[0], labs[1]), (labs[1], labs[2])] + ([tuple(labs)] if not deg2 else [(labs[2],)])
@@ -150,6 +152,10 @@ def jobs(tier, seed):
                         continue
                     add('%s/%s/fixed=%s%s' % (which, src, fixed, '/method' if method else ''), 'make_sub',
                         dict(src=src, which=which, fixed_idx=fixed, method=method, dense=(tier != 'quick')))
+        if tier != 'quick':
+            for which in ('subvalue', 'subgraph'):
+                for fixed in ([0, 3], [1], [1, 2, 3]):
+                    add('%s/%s/n4/fixed=%s' % (which, src, fixed), 'make_sub', dict(src=src, which=which, fixed_idx=fixed, method=(src != 'dict' and fixed == [1]), nlab=4))
         add('normalize/%s' % src, 'make_normalize', dict(src=src))
         if src != 'dict':
             add('normalize/%s/method' % src, 'make_normalize', dict(src=src, method=True))
